@@ -1,5 +1,37 @@
 /-!
-  C10 — DOC Transforms
+  C10 — path conditions of the array subscripts of the compiled import transforms that `Model/Transforms.lean` models (owning property C06), frozen from the source the model
+  was written against. `Props/C10/Transforms.lean` (`access_paths_covered_transforms`) proves that the table regenerated from the CURRENT
+  source (`Gen/KernelPaths.lean`) is this one: a test that dominates a subscript cannot be dropped, weakened or moved in the
+  source without breaking the build.
+
+  Each entry is (site, path condition): the tests passed on the way to that occurrence of the subscript, outermost first —
+  `for …` / `while …` = an enclosing loop guard (the same strings as in `KernelSitesTransforms`), a bare test = the `if` / `elif`
+  branch taken or an `and` operand to the left of the subscript, `not (…)` = an `else` branch, the code after an early exit
+  `if …: break | continue | return | raise`, or an `or` operand to the left. A condition is the text of a test that held
+  when it was passed (a syntactic path, not an invariant). A site reached on several paths has one entry per path.
+  Regenerate with `python3 tools/translate_kernels.py --paths /repo <kernel> …`.
+
+  Which conjunct of the path condition the model's checked accessor relies on (accessor names as in `KernelSitesTransforms`):
+  * all five kernels: `column_offsets[i_c]` (`column_offsets[col_idx]`) and `column_inds[i_c]` are read on the EMPTY path, and
+    no later path contains a test on the column subscript: nothing in a kernel bounds it. The model checks it against the
+    number of columns (`Chunk.ncols`, `.oob "column_offsets[col_idx]"`), discharged by the importer's construction
+    (`field_index < number of columns`, see `KernelSitesTransforms`).
+  * `column_inds[c, r]`, `column_inds[c, r + 1]` = the two `getE c.inds`: rely on `for row_idx in range(written_row_count)`
+    (`for row_idx in range(len(column_inds[i_c]) - 1)` in the two categorical kernels, which bound the row by the staging
+    row itself).
+  * `categorical_transform` / `leaky_categorical_transform`: `chunk[row_idx]` = `setE` in `catRows` / `leakyRows` relies on
+    the early exit `if row_idx >= chunk.shape[0]: break` (entry `not (row_idx >= chunk.shape[0])`, second on every path),
+    mirrored as `i ≥ chunk.length`; `cat_keys[entry_start + j]` and `column_vals[col_offset + key_start + j]` = `getE` in
+    `keyEq` rely on `for j in range(key_len)` AFTER `not (key_len != sc_key_len)` (the lengths are compared before the
+    bytes); `cat_values[index]` is reached only on `index != -1`; the free-text writes (`freetext_indices[row_idx + 1]`,
+    `freetext_values[…] = …`) on `not is_found` — `sliceAssign` checks the destination range, no test of the kernel does.
+  * `numeric_bool_transform`: `column_vals[… + byte_start_idx]` is behind the operand `byte_start_idx < length`,
+    `column_vals[… + byte_end_idx]` behind `byte_end_idx >= 0` (the two blank-trimming `while` guards: `skipLead`,
+    `skipTrail`); `val[0]` … `val[4]` are reached only under `actual_length == k` with `k` above the subscript
+    (`rowAccepts`: `row.1 == val.length`), and `val[k]` sits to the right of `val[k - 1] in (…)` inside the `and` chains;
+    `elements[row_idx]`, `validity[row_idx]` rely on `for row_idx in range(written_row_count)` and on the capacity the
+    caller passes (`boolRows`: `.oob "elements[row_idx]"`).
+  * `fixed_string_transform`: `column_vals[c]`, `memory[a]` rely on `for c in range(start_idx, end_idx)` (`copyBytes`).
 -/
 namespace Exetera.KernelPaths
 
